@@ -462,8 +462,13 @@ impl OsIpcSender {
     pub fn connect(name: String) -> Result<OsIpcSender, UnixError> {
         let name = CString::new(name).unwrap();
         unsafe {
-            let fd = libc::socket(libc::AF_UNIX, SOCK_SEQPACKET | SOCK_FLAGS, 0);
             let (sockaddr, len) = new_sockaddr_un(name.as_ptr());
+            let fd = libc::socket(libc::AF_UNIX, SOCK_SEQPACKET | SOCK_FLAGS, 0);
+            if fd < 0 {
+                return Err(UnixError::last());
+            }
+            // From here on the sender owns the descriptor, so it is closed on every error path.
+            let sender = OsIpcSender::from_fd(fd);
             if libc::connect(
                 fd,
                 &sockaddr as *const _ as *const sockaddr,
@@ -473,7 +478,7 @@ impl OsIpcSender {
                 return Err(UnixError::last());
             }
 
-            Ok(OsIpcSender::from_fd(fd))
+            Ok(sender)
         }
     }
 }
@@ -686,13 +691,22 @@ impl Drop for OsIpcOneShotServer {
 impl OsIpcOneShotServer {
     pub fn new() -> Result<(OsIpcOneShotServer, String), UnixError> {
         unsafe {
-            let fd = libc::socket(libc::AF_UNIX, SOCK_SEQPACKET | SOCK_FLAGS, 0);
             let temp_dir = Builder::new().tempdir()?;
             let socket_path = temp_dir.path().join("socket");
             let path_string = socket_path.to_str().unwrap();
 
             let path_c_string = CString::new(path_string).unwrap();
             let (sockaddr, len) = new_sockaddr_un(path_c_string.as_ptr());
+            let fd = libc::socket(libc::AF_UNIX, SOCK_SEQPACKET | SOCK_FLAGS, 0);
+            if fd < 0 {
+                return Err(UnixError::last());
+            }
+            // From here on the server owns the descriptor (and the directory),
+            // so both are released on every error path.
+            let server = OsIpcOneShotServer {
+                fd,
+                _temp_dir: temp_dir,
+            };
             if libc::bind(
                 fd,
                 &sockaddr as *const _ as *const sockaddr,
@@ -706,13 +720,7 @@ impl OsIpcOneShotServer {
                 return Err(UnixError::last());
             }
 
-            Ok((
-                OsIpcOneShotServer {
-                    fd,
-                    _temp_dir: temp_dir,
-                },
-                path_string.to_string(),
-            ))
+            Ok((server, path_string.to_string()))
         }
     }
 
